@@ -1276,6 +1276,83 @@ def sub_gate_kraus(ctx):
     ctx.run_cases("gate_kraus", chk_gate_noncp, decorate(ctx, noncp, opts=False))
 
 
+# ================================================================================================ EffectiveLindbladian: spectral ("Kraus") form
+def chk_lindbladian_kraus(ctx, case):
+    """EffectiveLindbladian (a Gate subclass whose HS matrix is a generator) overrides to_kraus_matrices: it returns pairs (a_i, A_i) with
+    L(X) = sum_i a_i^2 A_i X A_i^dagger (a_i^2 real, possibly negative).  Certificate: sum_i a_i^2 vec(A_i) vec(A_i)^dagger (row-major vec) equals
+    the Choi matrix of the HS matrix (computed by the MODEL), and the decomposition applied to a generic X equals the model's image of X.
+    Generators with degenerate Choi spectra (K = I, repeated / zero rates, H = 0) are the point: eigenvectors inside a degenerate eigenspace
+    must be orthonormal for the certificate to hold."""
+    from quara.objects import effective_lindbladian as EL
+    c = cfg(case["cfg"])
+    L = Lay(case)
+    K = Cmp(ctx, "lindbladian_kraus", case, L)
+    d, D, cs = c.d, c.D, c.c_sys
+    h = uj(case["h"]) if case.get("h") is not None else None
+    k = uj(case["k"]) if case.get("k") is not None else None
+    o = opts_of(case)
+    if h is not None and k is not None:
+        lind = EL.generate_effective_lindbladian_from_hk(cs, L(h), L(k), is_physicality_required=False, **o)
+    elif k is not None:
+        lind = EL.generate_effective_lindbladian_from_k(cs, L(k), is_physicality_required=False, **o)
+    else:
+        lind = EL.generate_effective_lindbladian_from_h(cs, L(h), is_physicality_required=False, **o)
+    hs = np.asarray(lind.hs, dtype=float)
+    mch = m_choi(ctx, c, hs)
+    K.eq("EffectiveLindbladian.to_choi_matrix", np.asarray(dense(lind.to_choi_matrix())), mch, "to_choi_matrix() vs model Choi of the HS matrix")
+    ev = np.linalg.eigvalsh((mch + mch.conj().T) / 2)
+    gaps = np.diff(np.sort(ev))
+    degenerate = bool((gaps < 1e-9).any())
+    ctx.count("lindbladian_kraus", key=(c.name, case.get("gen"), tuple(np.round(hs.ravel(), 9))), label="%s/%s" % (case.get("gen", "?"), "degenerate" if degenerate else "simple"))
+    site = "EffectiveLindbladian.to_kraus_matrices"
+    suffix = ":degenerate-spectrum" if degenerate else ""
+    r, ks = call(lind.to_kraus_matrices)
+    if r == "err":
+        K.bad(site, "unexpected-raise", "raised %s" % ks)
+        return
+    a2 = np.array([complex(a) ** 2 for a, _ in ks])
+    if a2.size and np.abs(a2.imag).max() > 1e-10:
+        K.bad(site, "weights-not-real" + suffix, "a_i^2 must be real (L is Hermiticity preserving): max |Im a_i^2| = %.3g" % np.abs(a2.imag).max())
+    if not any(1e-15 < abs(x) < 1e-9 for x in ev):
+        rank = int((np.abs(ev) > 1e-9).sum())
+        if len(ks) != rank:
+            K.bad(site, "kraus-count" + suffix, "returned %d terms for a Choi matrix with %d non-zero eigenvalues" % (len(ks), rank))
+    rec = sum((w * np.outer(np.asarray(A).reshape(-1), np.asarray(A).reshape(-1).conj()) for w, (_, A) in zip(a2, ks)), np.zeros((D, D), dtype=complex))
+    K.eq(site, rec, mch, "certificate: sum_i a_i^2 vec(A_i) vec(A_i)^dagger vs the model's Choi matrix", tol=1e-9, sig="kraus-certificate" + suffix)
+    if c.complete and c.hermitian:          # the same statement in the property's words: the decomposition denotes the map the HS matrix denotes
+        X = uj(case["X"])
+        img = m_capply(ctx, c, hs.astype(complex), X)
+        got = sum((w * (np.asarray(A) @ X @ np.asarray(A).conj().T) for w, (_, A) in zip(a2, ks)), np.zeros((d, d), dtype=complex))
+        K.eq(site, got, img, "sum_i a_i^2 A_i X A_i^dagger vs the model's image of X", tol=1e-9, sig="different-operator" + suffix)
+
+
+def sub_lindbladian_kraus(ctx):
+    rng = ctx.rng
+    cases = []
+    for n in active_configs(ctx):
+        c = cfg(n)
+        if not CONFIGS[n][2] or is_smoke(ctx, n):
+            continue
+        d, m = c.d, c.D - 1
+
+        def herm():
+            return rand_herm(rng, d)
+
+        def add(gen, h, k):
+            cases.append({"cfg": n, "gen": gen, "h": None if h is None else jc(h), "k": None if k is None else jc(k), "X": jc(rand_cplx(rng, d, d))})
+        add("k=identity", None, np.eye(m, dtype=complex))
+        add("h+k=identity", herm(), np.eye(m, dtype=complex))
+        add("h-only", herm(), None)
+        rates = np.array([rng.choice([0.0, 0.5, 0.5, 1.0, 2.0]) for _ in range(m)])
+        add("k=repeated-rates", None, np.diag(rates).astype(complex))
+        add("h+k=repeated-rates", herm(), np.diag(rates).astype(complex))
+        for _ in range(nn(ctx, n, 1, 6)):
+            A = rand_cplx(rng, m, m) / 4
+            add("h+k=generic", herm(), A @ A.conj().T)
+    ctx.sample("lindbladian_kraus", cases[0])
+    ctx.run_cases("lindbladian_kraus", chk_lindbladian_kraus, decorate(ctx, cases))
+
+
 # ================================================================================================ variables <-> Choi
 def chk_gate_var(ctx, case):
     """gate.to_choi_from_var and gate.to_var_from_choi.  The model of to_var_from_choi is the REPAIRED code (fix gate-to-var-from-choi-inverse-map):
@@ -1593,10 +1670,10 @@ def sub_linearity(ctx):
 
 
 SUBS = [("basis", sub_basis), ("tables", sub_tables), ("table_history", sub_table_history), ("state", sub_state), ("povm", sub_povm), ("gate_choi", sub_gate_choi),
-        ("gate_basis", sub_gate_basis), ("gate_kraus", sub_gate_kraus), ("gate_var", sub_gate_var), ("mprocess", sub_mprocess),
+        ("gate_basis", sub_gate_basis), ("gate_kraus", sub_gate_kraus), ("lindbladian_kraus", sub_lindbladian_kraus), ("gate_var", sub_gate_var), ("mprocess", sub_mprocess),
         ("truncate", sub_truncate), ("linearity", sub_linearity)]
 FNS = {"basis": chk_basis, "tables": chk_tables, "table_history": chk_table_history, "state": chk_state, "povm": chk_povm, "gate_choi": chk_gate_choi,
-       "gate_basis": chk_gate_basis, "gate_kraus": chk_gate_kraus, "gate_var": chk_gate_var, "mprocess": chk_mprocess,
+       "gate_basis": chk_gate_basis, "gate_kraus": chk_gate_kraus, "lindbladian_kraus": chk_lindbladian_kraus, "gate_var": chk_gate_var, "mprocess": chk_mprocess,
        "truncate": chk_truncate, "linearity": chk_linearity}
 
 
